@@ -80,6 +80,49 @@ impl std::io::BufRead for OneByte<'_> {
         self.pos += n;
     }
 }
+/// (a'') a reader that refills four bytes at a time, 0..=12 bytes: the 10-byte
+/// limit has to hold across refills whose size does not divide 10.
+struct FourBytes<'a> {
+    buf: &'a [u8],
+    pos: usize,
+}
+impl std::io::Read for FourBytes<'_> {
+    fn read(&mut self, _: &mut [u8]) -> std::io::Result<usize> {
+        Ok(0)
+    }
+}
+impl std::io::BufRead for FourBytes<'_> {
+    fn fill_buf(&mut self) -> std::io::Result<&[u8]> {
+        let end = (self.pos + 4).min(self.buf.len());
+        Ok(&self.buf[self.pos..end])
+    }
+    fn consume(&mut self, n: usize) {
+        self.pos += n;
+    }
+}
+#[kani::proof]
+#[kani::unwind(14)]
+fn c38_q_read_varint_refill4_le_12_bytes() {
+    let bytes: [u8; 12] = kani::any();
+    let len: usize = kani::any();
+    kani::assume(len <= 12);
+    let mut src = FourBytes { buf: &bytes[..len], pos: 0 };
+    let r = read_varint(&mut src);
+    let expect = ref_varint(&bytes[..len]);
+    kani::cover!(matches!(expect, Some((_, 10))), "10-byte varint reachable");
+    match r {
+        Ok(v) => {
+            let (ev, n) = expect.unwrap();
+            assert!(v == ev, "varint value differs from the reference");
+            assert!(src.pos == n, "varint consumed the wrong number of bytes");
+        }
+        Err(VarintError::Eof) => assert!(expect.is_none()),
+        Err(VarintError::InvalidVarint) => assert!(expect.is_none()),
+        Err(VarintError::IoError(_)) => assert!(false),
+    }
+    assert!(src.pos <= len);
+}
+
 #[kani::proof]
 #[kani::unwind(13)]
 fn c38_q_read_varint_refill_le_11_bytes() {
@@ -443,4 +486,89 @@ fn c38_t_nested_fields_step() {
     }
     let pos = r.position();
     assert!(pos <= n as u64, "position beyond the input");
+}
+
+/// The file path wraps its reader in `ReadPos` (position tracking for readers
+/// that cannot report their position): after a skip followed by one more
+/// primitive operation on `ValueReader<ReadPos<Cursor<..>>>` the reported
+/// position is the number of bytes actually consumed, and lengths are
+/// validated exactly as for buffers.
+#[kani::proof]
+#[kani::unwind(10)]
+fn c38_q_readpos_skip_then_read() {
+    use super::value::ReadPos;
+    let bytes: [u8; 6] = kani::any();
+    let n: usize = kani::any();
+    kani::assume(n <= 6);
+    let mut r = ValueReader::new(ReadPos::new(Cursor::new(&bytes[..n])));
+    assert!(r.position() == 0);
+    let pre: usize = kani::any();
+    kani::assume(pre <= n);
+    match r.skip(pre) {
+        Ok(()) => {}
+        Err(e) => {
+            std::mem::forget(e);
+            assert!(false, "skip inside the input rejected");
+        }
+    }
+    assert!(r.position() == pre as u64, "ReadPos position wrong after skip");
+    let k: usize = kani::any();
+    let as_bytes: bool = kani::any();
+    let ok = if as_bytes {
+        match r.read_bytes(k) {
+            Ok(b) => {
+                assert!(b.len() == k);
+                std::mem::forget(b);
+                true
+            }
+            Err(e) => {
+                std::mem::forget(e);
+                false
+            }
+        }
+    } else {
+        match r.skip(k) {
+            Ok(()) => true,
+            Err(e) => {
+                std::mem::forget(e);
+                false
+            }
+        }
+    };
+    kani::cover!(ok && k == 2 && pre == 3, "two bytes after three");
+    assert!(ok == (k <= n - pre), "length validation differs from the remaining input");
+    if ok {
+        assert!(r.position() == (pre + k) as u64, "ReadPos position differs from the bytes consumed");
+    }
+}
+
+/// read_varint through `ReadPos` after a symbolic skip: value, consumed length
+/// and reported position agree with the reference decoder.
+#[kani::proof]
+#[kani::unwind(13)]
+fn c38_t_readpos_varint_after_skip() {
+    use super::value::ReadPos;
+    let bytes: [u8; 6] = kani::any();
+    let n: usize = kani::any();
+    kani::assume(n <= 6);
+    let mut r = ValueReader::new(ReadPos::new(Cursor::new(&bytes[..n])));
+    let pre: usize = kani::any();
+    kani::assume(pre <= n);
+    match r.skip(pre) {
+        Ok(()) => {}
+        Err(e) => std::mem::forget(e),
+    }
+    let rest = &bytes[pre..n];
+    match r.read_varint() {
+        Ok(v) => {
+            let (ev, len) = ref_varint(rest).unwrap();
+            kani::cover!(len == 2, "two-byte varint");
+            assert!(v == ev);
+            assert!(r.position() == (pre + len) as u64, "ReadPos position differs from the bytes consumed");
+        }
+        Err(e) => {
+            assert!(ref_varint(rest).is_none());
+            std::mem::forget(e);
+        }
+    }
 }
